@@ -248,3 +248,68 @@ Theorem C07_compile_query_total : forall (QA QB : Type) (atoms : list (Z * QA)) 
   wf_adj atoms bonds -> exists comps clo, compile_query atoms bonds = Ok (comps, clo).
 Proof. exact compile_query_total. Qed.
 Print Assumptions C07_compile_query_total.
+
+(* ---------------------------------------------------------------------------------------------------------------
+   THE PROPERTY IN ITS OWN WORDS.  multi_embedding (a mapping glued from per-component embeddings) is the same as: ONE
+   map f of all pattern atoms such that
+     - f is injective, every image lies in the scope, every pattern atom matches its image,
+     - for EVERY two pattern atoms: a pattern bond goes to a matching target bond and no pattern bond goes to no target bond
+       (so no additional bond joins images of atoms of one component -- nor of different ones),
+     - two pattern atoms are in one pattern component exactly when their images are in one target component
+       (different pattern components lie in different target components).
+   --------------------------------------------------------------------------------------------------------------- *)
+Theorem C07_multi_embedding_iff_global : forall (QA A QB B : Type) (amatch : QA -> A -> bool) (bmatch : QB -> B -> bool)
+    (q_atoms : list (Z * QA)) (q_bonds : list (Z * list (Z * QB))) (o_atoms : list (Z * A)) (o_bonds : list (Z * list (Z * B)))
+    (tcomps : list (list Z)) (comps : list (list (lentry QA QB))) (clo : closures_t QB),
+  wf_adj q_atoms q_bonds -> wf_adj o_atoms o_bonds -> tcomps_ok A B o_atoms o_bonds tcomps ->
+  compiled_ok q_atoms q_bonds comps clo ->
+  forall scope f,
+    multi_embedding QA A QB B amatch bmatch q_atoms q_bonds o_atoms o_bonds tcomps comps scope f <->
+    (map fst f = concat (map (map fst4) comps) /\ NoDup (image f) /\
+     (forall x y, In (x, y) f -> In y (scope_list A o_atoms scope) /\
+                  exists qa oa, zget q_atoms x = Some qa /\ zget o_atoms y = Some oa /\ amatch qa oa = true) /\
+     (forall x1 y1 x2 y2, In (x1, y1) f -> In (x2, y2) f ->
+        match bond_get q_bonds x1 x2, bond_get o_bonds y1 y2 with
+        | Some qb, Some ob => bmatch qb ob = true
+        | None, None => True
+        | _, _ => False
+        end)) /\
+    (forall x1 y1 x2 y2, In (x1, y1) f -> In (x2, y2) f ->
+       ((exists c, In c comps /\ In x1 (map fst4 c) /\ In x2 (map fst4 c)) <->
+        (exists cand, In cand tcomps /\ In y1 cand /\ In y2 cand))).
+Proof. exact multi_embedding_iff_global. Qed.
+Print Assumptions C07_multi_embedding_iff_global.
+
+(* the whole call without the filter, for every well-formed pattern and target, no further hypothesis: the query compiles
+   (every atom in exactly one component order), and for every scope the result holds exactly those maps, each once *)
+Theorem C07_get_mapping_global_exact : forall (QA A QB B : Type) (amatch : QA -> A -> bool) (bmatch : QB -> B -> bool)
+    (q_atoms : list (Z * QA)) (q_bonds : list (Z * list (Z * QB))) (o_atoms : list (Z * A)) (o_bonds : list (Z * list (Z * B)))
+    (tcomps : list (list Z)),
+  wf_adj q_atoms q_bonds -> wf_adj o_atoms o_bonds -> tcomps_ok A B o_atoms o_bonds tcomps ->
+  exists comps clo, compile_query q_atoms q_bonds = Ok (comps, clo) /\
+    Permutation (concat (map (map fst4) comps)) (keys q_atoms) /\
+    forall scope, exists res,
+      mol_get_mapping amatch bmatch q_atoms q_bonds o_atoms o_bonds tcomps false scope = Ok res /\
+      NoDup res /\
+      forall f, In f res <-> global_embedding QA A QB B amatch bmatch q_atoms q_bonds o_atoms o_bonds tcomps comps scope f.
+Proof. exact get_mapping_global_exact. Qed.
+Print Assumptions C07_get_mapping_global_exact.
+
+(* is_equal answers True only for isomorphic graphs: a bijection between ALL atoms that preserves atoms and, both ways, bonds
+   (the converse direction is covered by the brute-force search only) *)
+Theorem C07_is_equal_true_isomorphism_partial : forall (QA A QB B : Type) (amatch : QA -> A -> bool) (bmatch : QB -> B -> bool)
+    (q_atoms : list (Z * QA)) (q_bonds : list (Z * list (Z * QB))) (o_atoms : list (Z * A)) (o_bonds : list (Z * list (Z * B)))
+    (tcomps : list (list Z)),
+  wf_adj q_atoms q_bonds -> wf_adj o_atoms o_bonds -> tcomps_ok A B o_atoms o_bonds tcomps ->
+  is_equal amatch bmatch q_atoms q_bonds o_atoms o_bonds tcomps = Ok true ->
+  exists f : mapping,
+    Permutation (map fst f) (keys q_atoms) /\ Permutation (image f) (keys o_atoms) /\
+    (forall x y, In (x, y) f -> exists qa oa, zget q_atoms x = Some qa /\ zget o_atoms y = Some oa /\ amatch qa oa = true) /\
+    (forall x1 y1 x2 y2, In (x1, y1) f -> In (x2, y2) f ->
+       match bond_get q_bonds x1 x2, bond_get o_bonds y1 y2 with
+       | Some qb, Some ob => bmatch qb ob = true
+       | None, None => True
+       | _, _ => False
+       end).
+Proof. exact is_equal_true_isomorphism. Qed.
+Print Assumptions C07_is_equal_true_isomorphism_partial.
